@@ -19,6 +19,8 @@ var ErrBroken = errors.New("netsim: stream broken")
 type dirq struct {
 	q      [][]byte
 	closed bool // writer side finished (EOF after drain)
+	enq    int  // packets ever queued / ever taken (rendezvous streams wait for their own packet to be taken)
+	deq    int
 }
 
 // Link is the pair of directed queues plus fault state. All fields are touched
@@ -45,6 +47,9 @@ type Link struct {
 
 	// PostYield: a scheduling point after every successful SendMsg, before it returns to its caller
 	PostYield bool
+	// Rendezvous: a stream without any buffer (capacity 0): SendMsg returns only once the peer's RecvMsg has taken the
+	// packet (or the stream is torn down)
+	Rendezvous bool
 	// OnSend, if set, observes every packet at the moment its SendMsg gate is
 	// released (before it is queued).
 	OnSend func(from string, p *types.Packet)
@@ -200,6 +205,7 @@ func (e *End) SendMsg(m interface{}) error {
 	if e.l.OnSend != nil {
 		e.l.OnSend(e.Name, p)
 	}
+	mySeq := 0
 	err := func() error {
 		e.l.mu.Lock()
 		defer e.l.mu.Unlock()
@@ -216,12 +222,19 @@ func (e *End) SendMsg(m interface{}) error {
 			return io.ErrClosedPipe
 		}
 		e.out.q = append(e.out.q, raw)
+		e.out.enq++
+		mySeq = e.out.enq
 		var cp types.Packet
 		if err := cp.UnmarshalVT(raw); err == nil {
 			e.l.Log = append(e.l.Log, Pkt{From: e.Name, P: &cp})
 		}
 		return nil
 	}()
+	if err == nil && e.l.Rendezvous {
+		vrt.Gate(key+".taken"+desc(p), func() bool {
+			return e.l.Torn || e.Broken || e.PeerGone || e.out.deq >= mySeq
+		})
+	}
 	if err == nil && e.l.PostYield {
 		// the call returns late (a synchronous transport, or the caller is descheduled on return): the packet is
 		// already on its way when the caller gets to run again
@@ -258,6 +271,7 @@ func (e *End) RecvMsg(m interface{}) error {
 	}
 	raw := e.in.q[0]
 	e.in.q = e.in.q[1:]
+	e.in.deq++
 	err := p.Unmarshal(raw)
 	// a transport reuses its receive buffer as soon as RecvMsg returns: a decoded packet that still points into it
 	// reads garbage from now on
